@@ -260,6 +260,44 @@ def t8(F, rep):
             rep.obs.append(o)
 
 
+def t9(F, rep):
+    """The canonical-code tree has one construction: calculate_huffman_code_tree produces its result in one place, from the
+    node array built by the general algorithm, behind the validity check.  A shortcut result for a special shape of alphabet
+    (one code, two one-bit codes ...) is a second, unchecked definition of the code assignment."""
+    from .. import err
+    b = F.body(P + "huffman_helper::calculate_huffman_code_tree")
+    prods = err.result_producers(b, F)
+    vals = []
+    for pb, _ in prods:
+        for s in b.stmts(pb):
+            if s.get("k") == "assign" and s["p"]["l"] == 0 and not s["p"]["p"]:
+                vals.append(flow.describe_rvalue(b, s["r"], names=True))
+    valid = [(bb, t) for bb, t in b.calls() if strip_generics(callee_def(t)).endswith("is_valid_huffman_code_lengths")]
+    rep.add("T9", "single-construction-of-the-code-tree", len(prods) == 1 and len(valid) == 1 and b.dominates(valid[0][0], prods[0][0]),
+            "%s:%s" % (b.file, b.line), "result sites: %s; validity checks: %d" % (vals, len(valid)))
+    # ... and the validity check accepts exactly the complete codes: its decisions are the enumerated ones
+    v = F.body(P + "huffman_helper::is_valid_huffman_code_lengths")
+    extra = []
+    n = 0
+    for sb in sorted(v.normal_blocks()):
+        st = v.term(sb)
+        if st["k"] != "switch" or st.get("exp"):
+            continue
+        p = op_place(st["d"])
+        dd = v.single_def(p["l"]) if p is not None and not p["p"] else None
+        if dd and dd[2] == "assign" and dd[3]["k"] == "discr":
+            continue
+        d = flow.describe(v, st["d"], names=True)
+        n += 1
+        if not any(re.match(pat, d) for pat in _VALID_DECISIONS):
+            extra.append("%s at %s" % (d[:100], v.where(sb)))
+    rep.add("T9", "validity-check-decisions-enumerated", not extra and n >= 3, "%s:%s" % (v.file, v.line),
+            "%d decisions" % n if not extra else "decisions outside the enumerated set: %s" % extra[:3])
+
+
+_VALID_DECISIONS = [r"^is_empty\(var\(code_lengths\)\)$", r"^(Ge|Gt)\((cast\()?var\(length\)\)?, K1[56]\)$", r"^(Lt|Le)\(var\(internal_nodes\), K-?[01]\)$"]
+
+
 def t7(F, rep):
     """LZ77 copy (RFC 1951 3.2.3): a <length, distance> pair copies `length` bytes starting `distance` bytes back in the
     output.  write_reference must take its source from `plain_text.len() - dist` with the decoded distance itself (no clamp,
@@ -337,3 +375,23 @@ def run(ctx, rep):
     t6(F, rep)
     t7(F, rep)
     t8(F, rep)
+    t9(F, rep)
+    # T10: what is decoded is the caller's byte string from its first byte (no header guessed away in front of it), and the
+    # reported compressed_size is the parser's own (C02/M2-M3 flow rules, run here for their C03 consequence)
+    from . import c02
+    from ..core import Report
+    tmp = Report("tmp", "quick")
+    c02._m2_m3(F, tmp)
+    for o in tmp.obs:
+        if o.rule == "M3":
+            o.rule = "T10"
+            rep.obs.append(o)
+    pc = F.body(P + "preflate_container::decompress_deflate_stream")
+    cs = []
+    for bb in sorted(pc.normal_blocks()):
+        for s in pc.stmts(bb):
+            r = s.get("r") or {}
+            if s.get("k") == "assign" and r.get("k") == "agg" and str(r.get("adt", "")).endswith("DecompressResult"):
+                cs.append(flow.describe(pc, r["ops"][r["fields"].index("compressed_size")]))
+    rep.add("T10", "compressed_size-is-the-parsers", bool(cs) and all(re.match(r"^.*\.compressed_size$", d) and "Add" not in d and "Sub" not in d for d in cs),
+            "%s:%s" % (pc.file, pc.line), "DecompressResult.compressed_size := %s" % cs)
